@@ -6,6 +6,7 @@ import Hive.Proofs.EventsIter
 import Hive.Proofs.Events
 import Hive.Proofs.EventsLink
 import Hive.Proofs.EventsCount
+import Hive.Proofs.EventsRelink
 import Hive.Spec.Events
 import Hive.Gen.C15_Skel
 /-!
@@ -16,6 +17,27 @@ runtime/valuenotifier after the two `fix:` commits, ds/orderedmap's `ForEach`).
 -/
 namespace Hive.C15
 open Hive.Conc
+
+theorem count_one_of_pairwise_lt {vs : List Nat} (h : vs.Pairwise (· < ·)) {p : Nat} (hm : p ∈ vs) :
+    vs.count p = 1 := by
+  induction vs with
+  | nil => cases hm
+  | cons a l ih =>
+    rw [List.pairwise_cons] at h
+    rw [List.count_cons]
+    simp only [List.mem_cons] at hm
+    by_cases hpa : a = p
+    · subst hpa
+      have : l.count a = 0 := by
+        rw [List.count_eq_zero]
+        intro hin; exact Nat.lt_irrefl _ (h.1 a hin)
+      simp [this]
+    · have hin : p ∈ l := by
+        rcases hm with rfl | hm
+        · exact absurd rfl hpa
+        · exact hm
+      simp [hpa, ih h.2 hin]
+
 
 /-! ## `Trigger` over sequential histories -/
 section events
@@ -260,6 +282,82 @@ example :
   decide
 
 end link
+
+/-! ## `LinkTo` concurrent with `Trigger` -/
+section relink
+open Hive.EventsRelink
+
+/-- **C15, LinkTo under concurrency (any interleaving).**  From a configuration in which nobody
+iterates or re-links: any number of `Trigger` callers of the target `X`, of `S.LinkTo(X)` /
+`S.LinkTo(elsewhere or nil)` callers (serialised by `S.linkMutex`, but interleaved with everything
+else between their `Unhook` and their `Hook`) and of user `Hook`/`Unhook` callers.  For every
+`Trigger` of `X` that has finished, with `c0` = the id counter and `d` = the removed hooks at the
+moment it began:
+* it invoked no hook twice and in attachment order;
+* it invoked no hook that had been removed before it began — in particular not the link hook of a
+  `LinkTo` that `S` had already been moved away from (the `Unhook` precedes the return of `LinkTo`);
+* if a link hook `k` of `S` was attached before it began (`k ≤ c0`, i.e. that `LinkTo(X)` had
+  performed its `Hook`) and is still attached now (no re-link since), it invoked `k` exactly once
+  and no other link hook of `S`: `S` fired exactly once for this trigger. -/
+theorem C15_link_concurrent (c : Cfg Sh Th) (s : Sh) (ts' : List Th) (hstart : Start c)
+    (hr : Reach sys c (s, ts')) :
+    ∀ c0 d vs, Th.it .fin c0 d vs ∈ ts' →
+      vs.Pairwise (· < ·) ∧ (∀ v ∈ vs, v ∉ d) ∧
+      ∀ k ∈ s.linkIds, k ≤ c0 → k ∈ s.reg.live → vs.count k = 1 ∧ fires s vs = 1 := by
+  have hinv : CfgInv (s, ts') :=
+    inv_induction CfgInv (cfgInv_start hstart) (fun a b ha hs => cfgInv_step ha hs) hr
+  intro c0 d vs hm
+  obtain ⟨hi, hall⟩ := hinv.th _ hm
+  refine ⟨hi.sorted, hi.fresh, ?_⟩
+  intro k hk hkc hkl
+  have hcount : vs.count k = 1 := count_one_of_pairwise_lt hi.sorted (hall k hkl hkc)
+  refine ⟨hcount, ?_⟩
+  have hlk := hinv.lk
+  have hlink : s.link = some k := hlk.only k hk hkl
+  have hhead := (hlk.cur k hlink).2
+  have huniq : ∀ v ∈ vs, v ∈ s.linkIds → v = k := by
+    intro v hv hvl
+    rcases Nat.lt_trichotomy v k with hlt | heq | hgt
+    · exfalso
+      have hvnl : v ∉ s.reg.live := by
+        intro hl
+        have := hlk.only v hvl hl
+        rw [hlink] at this; cases this; omega
+      obtain ⟨q, hq, hqv, hcnt⟩ := hlk.gone v hvl hvnl
+      have hlt2 := hcnt k hk hlt
+      by_cases hqd : q.1 ∈ d
+      · exact hi.fresh v hv (hqv ▸ hqd)
+      · have := (hi.later q hq hqd).1; omega
+    · exact heq
+    · exfalso
+      have := head_max hlk.desc hhead v hvl
+      omega
+  unfold fires
+  rw [← hcount, List.count_eq_countP]
+  apply List.countP_congr
+  intro v hv
+  simp only [List.contains_eq_mem, decide_eq_true_eq, beq_iff_eq]
+  constructor
+  · intro h; exact huniq v hv h
+  · intro h; rw [h]; exact hk
+
+/-- Non-vacuity: `S` is linked to `X` by hook 2; a trigger runs completely (fires `S` once); then
+`S` re-links to `X` (hook 2 removed, hook 4 attached) while a second trigger stands on hook 1; that
+trigger reaches the new link hook 4 (attached after it began), the old one not (removed before it
+arrived); a third trigger that begins afterwards never sees the removed hook 2. -/
+example :
+    let s0 : Sh := { reg := { live := [1, 2, 3], frozen := [], counter := 3 }, link := some 2, mutex := false,
+                     linkIds := [2] }
+    let c0 : Cfg Sh Th := (s0, [.it .start 0 [] [], .it .start 0 [] [], .lk true .acquire, .it .start 0 [] []])
+    Start c0 ∧
+    (let c := runSched sys c0 ([(0, 0), (0, 0), (0, 0), (0, 0), (0, 0), (0, 0), (0, 0)] ++
+        [(1, 0), (1, 0), (2, 0), (2, 0), (2, 0), (1, 0), (1, 0), (1, 0), (1, 0), (1, 0)] ++
+        [(3, 0), (3, 0), (3, 0), (3, 0), (3, 0), (3, 0), (3, 0)])
+     c.2 = [.it .fin 3 [] [1, 2, 3], .it .fin 3 [] [1, 3, 4], .lk true .fin, .it .fin 4 [2] [1, 3, 4]] ∧
+     c.1.linkIds = [4, 2] ∧ c.1.link = some 4) := by
+  refine ⟨⟨by decide, by decide, rfl, rfl, Or.inr ⟨2, rfl, rfl, by decide⟩, by decide⟩, by decide⟩
+
+end relink
 
 /-! ## trigger limits over sequential histories -/
 section seqcount
@@ -507,26 +605,6 @@ end maxcount
 /-! ## iteration of `Trigger` under concurrent `Hook` / `Unhook` -/
 section iter
 open Hive.EventsIter
-
-theorem count_one_of_pairwise_lt {vs : List Nat} (h : vs.Pairwise (· < ·)) {p : Nat} (hm : p ∈ vs) :
-    vs.count p = 1 := by
-  induction vs with
-  | nil => cases hm
-  | cons a l ih =>
-    rw [List.pairwise_cons] at h
-    rw [List.count_cons]
-    simp only [List.mem_cons] at hm
-    by_cases hpa : a = p
-    · subst hpa
-      have : l.count a = 0 := by
-        rw [List.count_eq_zero]
-        intro hin; exact Nat.lt_irrefl _ (h.1 a hin)
-      simp [this]
-    · have hin : p ∈ l := by
-        rcases hm with rfl | hm
-        · exact absurd rfl hpa
-        · exact hm
-      simp [hpa, ih h.2 hin]
 
 /-- **C15, weak iteration (any interleaving).**  Start from a registry nobody iterates, any pool of
 iterating `Trigger` callers, `Hook` callers and `Unhook` callers.  Let `P` be hooks that are
